@@ -1,6 +1,9 @@
-HOOK_COMMITS = ["25b9903", "84839a7"]
+HOOK_COMMITS = ["25b9903", "84839a7", "aa49a5c", "4d2c446"]
 NOTES = ("Driver: vcheck.py (python3 stdlib) builds the property test binary (and server binaries) from /repo's working tree with -tags verif, "
          "runs the saved replays, then the generated campaigns as parallel processes seeded from VERIF_SEED, merges statistics into evidence/<id>.json. "
          "Exit 2 = inconclusive (build failure/timeout), never a violation. known_findings.json lists fixed/known defects.")
 _PENDING = "check not built yet in this session (work in progress; see DESIGN.md section 3 for the planned decision procedure)"
 NOT_APPLICABLE = {("C%02d" % i): _PENDING for i in range(1, 21)}
+
+# Properties whose check is finished and silent on the unchanged tree (only these are claimed in MANIFEST.json).
+READY = ["C01", "C02", "C03", "C07", "C10", "C11", "C14", "C17", "C20"]
